@@ -584,6 +584,11 @@ func (c *c06Check) runHist(seed, run uint64, t *tape.Tape, s *C06Stats, lines *[
 			if t.Chance(1, 8) {
 				args = append(args, "private?: true")
 			}
+			if t.Chance(1, 8) {
+				// the keyword arguments built-in and native props understand
+				kw := []string{"key: " + arg(), "sep: \",\"", "base: 2", "base: 16", "end: \"~\"", "rev: true", "init: " + arg(), "started: true", "min: 0", "max: 9"}
+				args = append(args, kw[t.Intn(len(kw))])
+			}
 			// `*` / `**` expansions of pool values among the arguments (one or two of each)
 			if t.Chance(1, 6) {
 				args = append([]string{"*" + pick().name}, args...)
@@ -685,7 +690,20 @@ func (c *c06Check) runHist(seed, run uint64, t *tape.Tape, s *C06Stats, lines *[
 			}
 		default: // object system
 			opKind = "objsys"
-			switch sub(2, 1, 2, 1, 1) {
+			switch sub(2, 1, 2, 1, 1, 2) {
+			case 5:
+				// Kernel props are injected into the top level: called as plain functions
+				opName = "kernel"
+				switch sub(1, 1, 1, 1) {
+				case 0:
+					src = fmt.Sprintf("assert(%s)", recv.name)
+				case 1:
+					src = fmt.Sprintf("assertEq(%s, %s)", recv.name, arg())
+				case 2:
+					src = fmt.Sprintf("assertRaises(ValueErr, \"injected\") %s", callee())
+				default:
+					src = fmt.Sprintf("[%s, JSON.dec(`[null, true, {\"a\": null}]`), %s.traverse(key: 'a)]", recv.name, recv.name)
+				}
 			case 0:
 				opName = "bear"
 				src = fmt.Sprintf("%s.bear({z: %s})", recv.name, arg())
